@@ -21,12 +21,21 @@
              the block size; the plaintext is the concatenation cut to StreamSize.
 
   Only the parameter set this library can meet is accepted (AES-256, CBC, SHA-512, block 16, hash 64).
-  The primitives are the abstract `Prims`.  `parseInfo` is a small scanner for the XML descriptor
-  (executed by the driver; its round trip with the model's writer is checked at run time, not proved).
+  The primitives are the abstract `Prims`.
+
+  The EncryptionInfo stream is read by `parseInfo`: the 8-byte version / flags header, then the XML descriptor
+  through the XML 1.0 reader of `Umya/Spec/XmlLex.lean` (written from the W3C recommendation) and a walk over
+  the element tree with namespace names resolved from the `xmlns` declarations in scope
+  (`encryption` / `keyData` / `dataIntegrity` / `keyEncryptors` / `keyEncryptor` in the encryption namespace,
+  `encryptedKey` in the password key-encryptor namespace, the `keyEncryptor` whose `uri` is that namespace).
+  Its round trip with the model of `build_encryption_info` is a theorem (`Thm/C14Info.lean`: `C14_info_parses`).
+  `scanInfo` is the older small text scanner (kept as a second reader: the driver runs both and requires the
+  same record).
 -/
 import Umya.Model.Prims
 import Umya.Model.AgileInfo
 import Umya.Spec.PwHash
+import Umya.Spec.XmlLex
 namespace Umya.Spec.Agile
 open Umya.Crypto (Prims Bytes)
 open Umya.Agile
@@ -186,8 +195,8 @@ def keyDataOf (a : List (List Char × List Char)) : Option KeyData := do
   let sv ← lookup a "saltValue"
   pure ⟨saltSize, blockSize, keyBits, hashSize, ca, cc, ha, sv⟩
 
-/-- §2.3.4.10: version 4.4, flags 0x40, then the XML descriptor (ASCII/UTF-8 taken bytewise) -/
-def parseInfo (stream : Bytes) : Option Info :=
+/-- the scanner's reading of the stream: version 4.4, flags 0x40, then the XML descriptor taken bytewise -/
+def scanInfo (stream : Bytes) : Option Info :=
   if stream.take 8 ≠ [4, 0, 4, 0, 0x40, 0, 0, 0] then none else
   let xml := (stream.drop 8).map fun b => Char.ofNat b.toNat
   do
@@ -203,5 +212,83 @@ def parseInfo (stream : Bytes) : Option Info :=
     let vv ← lookup ek "encryptedVerifierHashValue"
     let kv ← lookup ek "encryptedKeyValue"
     pure ⟨keyData, hk, hv, spin, key, vi, vv, kv⟩
+
+/-! ## The EncryptionInfo stream through an XML 1.0 reader (§2.3.4.10) -/
+
+open Umya.Spec.Xml (Node Attr)
+
+/-- namespace names of [MS-OFFCRYPTO] §2.3.4.10 -/
+def encryptionNs : List Char := "http://schemas.microsoft.com/office/2006/encryption".toList
+def passwordNs : List Char := "http://schemas.microsoft.com/office/2006/keyEncryptor/password".toList
+
+/-- the attribute that declares the prefix of a qualified name: `xmlns` without a prefix, `xmlns:p` for `p:…` -/
+def nsDeclName (qname : List Char) : List Char :=
+  match qname.dropWhile (· ≠ ':') with
+  | [] => "xmlns".toList
+  | _ :: _ => "xmlns:".toList ++ qname.takeWhile (· ≠ ':')
+
+/-- namespace name of an element under the declarations in scope (innermost element's attributes first) -/
+def nsOf (scope : List Attr) (qname : List Char) : Option (List Char) :=
+  (scope.find? (·.name = nsDeclName qname)).map (·.value)
+
+/-- is `n` an element `{ns}local`, given the declarations in scope outside it? -/
+def isElemOf (scope : List Attr) (ns : List Char) (loc : String) (n : Node) : Bool :=
+  n.isElem && Umya.Spec.Xml.localName n.name == loc.toList && nsOf (n.attrs ++ scope) n.name == some ns
+
+/-- first child element `{ns}local`, with the declarations in scope inside it -/
+def childOf (scope : List Attr) (ns : List Char) (loc : String) (n : Node) : Option (Node × List Attr) :=
+  (n.children.find? (isElemOf scope ns loc)).map fun c => (c, c.attrs ++ scope)
+
+def keyDataOfNode (n : Node) : Option KeyData := do
+  let saltSize ← (n.attr? "saltSize".toList).bind natOf
+  let blockSize ← (n.attr? "blockSize".toList).bind natOf
+  let keyBits ← (n.attr? "keyBits".toList).bind natOf
+  let hashSize ← (n.attr? "hashSize".toList).bind natOf
+  let ca ← n.attr? "cipherAlgorithm".toList
+  let cc ← n.attr? "cipherChaining".toList
+  let ha ← n.attr? "hashAlgorithm".toList
+  let sv ← n.attr? "saltValue".toList
+  pure ⟨saltSize, blockSize, keyBits, hashSize, ca, cc, ha, sv⟩
+
+/-- the descriptor of an `<encryption>` document element -/
+def infoOfTree (root : Node) : Option Info :=
+  if !isElemOf [] encryptionNs "encryption" root then none else
+  let s0 := root.attrs
+  do
+    let (kd, _) ← childOf s0 encryptionNs "keyData" root
+    let (di, _) ← childOf s0 encryptionNs "dataIntegrity" root
+    let (kes, s1) ← childOf s0 encryptionNs "keyEncryptors" root
+    -- the password key encryptor: `uri` = the password key-encryptor namespace
+    let ke ← kes.children.find? fun c => isElemOf s1 encryptionNs "keyEncryptor" c && c.attr? "uri".toList == some passwordNs
+    let (ek, _) ← childOf (ke.attrs ++ s1) passwordNs "encryptedKey" ke
+    let keyData ← keyDataOfNode kd
+    let key ← keyDataOfNode ek
+    let hk ← di.attr? "encryptedHmacKey".toList
+    let hv ← di.attr? "encryptedHmacValue".toList
+    let spin ← (ek.attr? "spinCount".toList).bind natOf
+    let vi ← ek.attr? "encryptedVerifierHashInput".toList
+    let vv ← ek.attr? "encryptedVerifierHashValue".toList
+    let kv ← ek.attr? "encryptedKeyValue".toList
+    pure ⟨keyData, hk, hv, spin, key, vi, vv, kv⟩
+
+/-- §2.3.4.10: version 4.4, flags 0x40, then the XML descriptor (ASCII / Latin-1 taken bytewise; every
+    character of a descriptor is ASCII: names, decimal numbers, base64) -/
+def parseInfo (stream : Bytes) : Option Info :=
+  if stream.take 8 ≠ [4, 0, 4, 0, 0x40, 0, 0, 0] then none else
+  match Umya.Spec.Xml.parse ((stream.drop 8).map fun b => Char.ofNat b.toNat) with
+  | none => none
+  | some root => infoOfTree root
+
+/-- the whole reader of a protected file's two streams: descriptor, then `decrypt` -/
+def decryptFile (P : Prims) (infoStream pkgStream : Bytes) (pw : List Char) : Option Bytes :=
+  match parseInfo infoStream with
+  | none => none
+  | some info => decrypt P info pkgStream pw
+
+/-- … and the verifier alone -/
+def verifyFile (P : Prims) (infoStream : Bytes) (pw : List Char) : Option Bytes :=
+  match parseInfo infoStream with
+  | none => none
+  | some info => verifyPassword P info pw
 
 end Umya.Spec.Agile
